@@ -7,11 +7,12 @@
 EXTENDS Integers, Sequences, TLC, Json
 Log == ndJsonDeserialize("trace.ndjson")
 LimitMs == 10000      \* "within seconds": single digits, with room for a loaded machine
+FewKilobytes == 8192  \* the promptness promise is about documents of a few kilobytes; larger ones must still return (watchdog)
 VARIABLES l, bad
 vars == <<l, bad>>
 Why(e) == IF e.outcome = "panic" THEN "panic"
           ELSE IF e.outcome = "timeout" THEN "did not return (hang or runaway rendering)"
-          ELSE IF e.ms > LimitMs THEN "took longer than the time bound"
+          ELSE IF e.ms > LimitMs /\ e.bytes <= FewKilobytes THEN "took longer than the time bound"
           ELSE ""
 Init == l = 1 /\ bad = <<>>
 Step == /\ l <= Len(Log) /\ l' = l + 1
